@@ -46,6 +46,9 @@ class PyExc(Exception):
 
     @property
     def tname(self):
+        q = getattr(self.etype, "_qual", None)
+        if q is not None:
+            return q.split(".")[-1]
         return getattr(self.etype, "__name__", None) or getattr(self.etype, "name", str(self.etype))
 
 
